@@ -88,12 +88,14 @@ theorem keeps_prepareStream (w : World) (s : BState) (n : Name) (objsDks : List 
   unfold prepareStream
   simp only
   split
+  · exact Keeps.refl w s
   · split
-    · exact (Keeps.of_rfl w rfl)
+    · split
+      · exact (Keeps.of_rfl w rfl)
+      · refine Keeps.trans w _ _ _ ?_ (keeps_prepareStream_finish w n objsDks _ _ _ _ _)
+        exact (Keeps.of_rfl w rfl)
     · refine Keeps.trans w _ _ _ ?_ (keeps_prepareStream_finish w n objsDks _ _ _ _ _)
       exact (Keeps.of_rfl w rfl)
-  · refine Keeps.trans w _ _ _ ?_ (keeps_prepareStream_finish w n objsDks _ _ _ _ _)
-    exact (Keeps.of_rfl w rfl)
 
 theorem keeps_dropMonitors (w : World) (s : BState) : Keeps w s (dropMonitors s).st := (Keeps.of_rfl w rfl)
 
@@ -130,18 +132,24 @@ theorem keeps_monitor (w : World) (s : BState) (o : Obj) (n : Name) : Keeps w s 
         · exact Keeps.refl w s''
         · exact (Keeps.of_rfl w rfl)
 
+theorem keeps_monitorCompose (w : World) (s : BState) (m : MonRec) (rd : Reading) :
+    Keeps w s (monitorCompose s m rd).st := by
+  unfold monitorCompose
+  split
+  · split
+    · exact Keeps.refl w s
+    · exact keeps_composeEvent ..
+  · exact keeps_composeEvent ..
+
 theorem keeps_monitorUpdate (w : World) (s : BState) (o : Obj) (rd : Reading) : Keeps w s (monitorUpdate s o rd).st := by
   unfold monitorUpdate
   split
   · exact Keeps.refl w s
   · split
-    · exact Keeps.refl w s
-    · simp only
-      split
-      · exact keeps_composeEvent ..
-      · split
-        · exact Keeps.trans w _ _ _ (keeps_composeEvent ..) (keeps_commit ..)
-        · exact keeps_composeEvent ..
+    · exact keeps_monitorCompose ..
+    · split
+      · exact Keeps.trans w _ _ _ (keeps_monitorCompose w s _ rd) (keeps_commit ..)
+      · exact keeps_monitorCompose ..
 
 theorem keeps_unmonitor (w : World) (s : BState) (o : Obj) : Keeps w s (unmonitor s o).st := by
   unfold unmonitor
@@ -165,22 +173,25 @@ theorem keeps_recordInterruption (w : World) (s : BState) (c : String) : Keeps w
       · exact Keeps.trans w _ _ _ (keeps_composeEvent ..) (keeps_commit ..)
       · exact keeps_composeEvent ..
 
+theorem keeps_reprepareAll (w : World) (s : BState) (o : Obj) : Keeps w s (reprepareAll w s o).st := by
+  unfold reprepareAll
+  apply keeps_foldl
+  · exact Keeps.refl w s
+  · intro r nd h
+    refine keeps_andThen w s r _ h ?_
+    intro s''
+    split
+    · exact Keeps.refl w s''
+    · split
+      · refine Keeps.trans w _ _ _ ?_ (keeps_prepareStream w _ nd.1 _)
+        exact (Keeps.of_rfl w rfl)
+      · exact Keeps.refl w s''
+
 theorem keeps_configure (w : World) (s : BState) (o : Obj) : Keeps w s (configure w s o).st := by
   unfold configure
-  apply keeps_andThen w
+  apply keeps_andThen
   · exact keeps_cacheReadConfig w s o
-  · intro s'
-    apply keeps_foldl w
-    · exact Keeps.refl w s'
-    · intro r nd h
-      refine keeps_andThen w s' r _ h ?_
-      intro s''
-      split
-      · exact Keeps.refl w s''
-      · split
-        · refine Keeps.trans w _ _ _ ?_ (keeps_prepareStream w _ nd.1 _)
-          exact (Keeps.of_rfl w rfl)
-        · exact Keeps.refl w s''
+  · intro s'; exact keeps_reprepareAll w s' o
 
 theorem keeps_declareStream (w : World) (s : BState) (n : Name) (objs : List Obj) (c : Bool) :
     Keeps w s (declareStream w s n objs c).st := by
